@@ -236,4 +236,74 @@ def rule_e(ctx):
                 if ok else 'observable_to_publisher returns %s' % sorted(kinds))
 
 
-RULES = [('C20.a', rule_a), ('C20.b', c06a), ('C20.c', c06b), ('C20.d', rule_d), ('C20.e', rule_e)]
+def rule_f(ctx):
+    """Completion and errors preserved by the subscriber adapters: an element flagged complete is forwarded and
+    followed by exactly one on_completed, whatever the batch counters say; an unflagged element never completes."""
+    rep = ctx.report
+    for pkg in PKGS:
+        m = ctx.repo.module('rsocket.%s.from_rsocket_publisher' % pkg)
+        for cname in ('RxSubscriber', 'RxSubscriberFromObserver'):
+            c = m.classes[cname][-1]
+            f = c.methods['on_next']
+            value = ('param', f.qualname, f.params()[1])
+            for flag in (True, False):
+                ok = True
+                detail = ''
+                paths = [p for p in ctx.paths(f, c, args={'is_complete': const(flag)}) if p.outcome == 'return']
+                if not paths:
+                    raise AnalysisError('C20.f: %s.on_next has no returning path' % cname)
+                for p in paths:
+                    nexts = [e for e in p.events if e.kind == 'call' and e.data.get('name') == 'on_next' and
+                             'observer' in repr(e.data['recv'].term)]
+                    dones = [e for e in p.events if e.kind == 'call' and e.data.get('name') == 'on_completed' and
+                             'observer' in repr(e.data['recv'].term)]
+                    if len(nexts) != 1 or strip_epoch(nexts[0].data['args'][0].term) != value:
+                        ok, detail = False, 'the element is not forwarded to the observer exactly once, unmodified'
+                    elif flag and len(dones) != 1:
+                        ok = False
+                        detail = 'an element flagged complete reaches the observer but on_completed is called %d ' \
+                                 'times on a path (completion lost at a batch boundary)' % len(dones)
+                    elif flag and dones[0].seq < nexts[0].seq:
+                        ok, detail = False, 'on_completed precedes the last element'
+                    elif not flag and dones:
+                        ok, detail = False, 'an element without the complete flag completes the observer'
+                rep.add('C20.f', '%s %s.on_next(is_complete=%s) / element and completion forwarded' % (
+                    pkg, cname, flag), f, ok, detail or 'observer.on_next(value)%s on all %d paths' % (
+                    ' then on_completed()' if flag else ', no completion', len(paths)))
+            for name, target in (('on_complete', 'on_completed'), ('on_error', 'on_error')):
+                g = c.methods[name]
+                ok = True
+                for p in ctx.paths(g, c):
+                    if p.outcome != 'return':
+                        continue
+                    calls = [e for e in p.events if e.kind == 'call' and e.data.get('name') == target and
+                             'observer' in repr(e.data['recv'].term)]
+                    if len(calls) != 1:
+                        ok = False
+                rep.add('C20.f', '%s %s.%s -> observer.%s exactly once' % (pkg, cname, name, target), g, ok,
+                        'forwarded once' if ok else 'the terminal signal is not forwarded exactly once')
+    # the collector used by the awaitable API: complete flag ends the collection, every element is kept
+    c = ctx.repo.cls('rsocket.awaitable.collector_subscriber:CollectorSubscriber')
+    f = c.methods['on_next']
+    for flag in (True, False):
+        ok = True
+        for p in ctx.paths(f, c, args={'is_complete': const(flag)}):
+            if p.outcome != 'return':
+                continue
+            kept = [e for e in p.events if e.kind == 'call' and e.data.get('name') == 'append']
+            done = [e for e in p.events if e.kind == 'call' and e.data.get('name') == 'set' and
+                    'is_done' in repr(e.data['recv'].term)]
+            limited = any(c_.kind == 'cond' and '_limit_count' in repr(c_.data['key']) and c_.data['key'][0] == 'eq'
+                          and c_.data['value'] for c_ in p.events)
+            if len(kept) != 1:
+                ok = False
+            if flag and not done:
+                ok = False
+            if not flag and done and not limited:
+                ok = False
+        rep.add('C20.f', 'CollectorSubscriber.on_next(is_complete=%s) / element kept, completion ends the collection' %
+                flag, f, ok, 'value appended%s' % (', done set' if flag else '') if ok else
+                'the collector loses an element or the completion')
+
+
+RULES = [('C20.a', rule_a), ('C20.b', c06a), ('C20.c', c06b), ('C20.d', rule_d), ('C20.e', rule_e), ('C20.f', rule_f)]
